@@ -133,6 +133,20 @@ def main():
                     e["err"] = type(ex).__name__ + ": " + str(ex)[:80]
                 e["after"] = project(net, nin)
                 tr.append(e)
+            # last event of every history: copy a node property over to the synapses (pre and post side)
+            if len(net.edges):
+                e = {"op": "copyprop", "key": "v"}
+                try:
+                    net.copy_node_property_to_edges("v")
+                    e["ok"] = 1
+                    e["prev"] = [tok(x) for x in net.edges["pre_v"]]
+                    e["postv"] = [tok(x) for x in net.edges["post_v"]]
+                except Exception as ex:
+                    e["ok"] = 0
+                    e["err"] = type(ex).__name__ + ": " + str(ex)[:80]
+                    e["prev"], e["postv"] = [], []
+                e["after"] = project(net, nin)
+                tr.append(e)
             traces.append(tr)
     json.dump({"traces": traces}, open(sys.argv[2], "w"))
 
